@@ -24,6 +24,7 @@ type vAct struct {
 	T int64    `json:"t,omitempty"` // milliseconds
 	S string   `json:"s,omitempty"` // name (timer, hook point, edit list)
 	L []uint64 `json:"l,omitempty"` // node list
+	U []uint64 `json:"u,omitempty"` // init: voters of the initial configuration that start empty
 	B bool     `json:"b,omitempty"`
 }
 
@@ -209,9 +210,16 @@ func (c *cluster) apply(a vAct) {
 			id := uint64(i)
 			nodes[id] = Node{ID: id, Addr: addrOf(id), Voter: true}
 		}
+		c.initNodes = nodes
 		for id := range nodes {
 			c.provision(id)
-			c.seedConfig(id, nodes)
+			unseeded := false
+			for _, u := range a.U {
+				unseeded = unseeded || u == id
+			}
+			if !unseeded {
+				c.seedConfig(id, nodes)
+			}
 		}
 		for _, id := range a.L {
 			c.provision(id)
@@ -384,6 +392,24 @@ func (c *cluster) apply(a vAct) {
 		}
 	case "cfg":
 		c.applyCfg(a)
+	case "bootstrap":
+		// the initial configuration handed, as a ChangeConfig task, to a voter of
+		// that configuration that was started empty and has not learnt it yet
+		if n := c.up(a.N); n != nil && !c.blackbox {
+			if r := raftOf(n); r != nil && !r.configs.IsBootstrapped() {
+				if _, member := c.initNodes[a.N]; member {
+					cfg := Config{Nodes: map[uint64]Node{}}
+					for k, v := range c.initNodes {
+						cfg.Nodes[k] = v
+					}
+					c.submitTask(n, "bootstrap", ChangeConfig(cfg))
+					c.stats.class("late-bootstrap")
+					if r.term > 0 {
+						c.stats.class("late-bootstrap-after-contact")
+					}
+				}
+			}
+		}
 	case "crash":
 		if a.S == "" {
 			c.crashNow(a.N, a.B)
